@@ -360,6 +360,10 @@ class Machine:
             require(got is exp_o, "lookup-vs-model",
                     f"step {self.step_no}: get_any({i}) -> {type(got).__name__ if got is not None else None}, "
                     f"model has {type(exp_o).__name__ if exp_o is not None else None}")
+        for i in {i.split("_")[0] for i, _ in self.created}:
+            got = ASTNode.get_any(i)
+            require(got is None or got.id == i, "lookup-returns-node-with-other-id",
+                    f"step {self.step_no}: get_any({i!r}) returns a node whose id is {getattr(got, 'id', None)!r}")
         for k in [k for k, r in self.reg.items() if r() is None]:
             del self.reg[k]
         if self.dropped:
